@@ -5,5 +5,5 @@ tier=${1:-quick}; [ $# -gt 0 ] && shift
 cd /repo || exit 2
 if [ -n "$(git status --porcelain --untracked-files=no)" ]; then echo "/repo has uncommitted changes"; exit 2; fi
 git apply "$patch" || { echo "patch does not apply"; exit 2; }
-trap 'git -C /repo checkout -- . ' EXIT INT TERM
+trap 'git -C /repo apply -R "$patch" 2>/dev/null; git -C /repo checkout -- . ' EXIT INT TERM      # (apply -R also removes files the patch created)
 /verif/tools/run_all.sh $tier "$@" 2>&1
